@@ -46,8 +46,8 @@ m = {
     ],
     'checks': checks,
     'not_applicable': [],
-    'notes': 'exit codes of ./check: 0 held, 1 VIOLATION, 2 undecided (tool limit / lost anchor / build failure; never an alarm). Level "exploration" entries (C14, C16, C18) are bounded-only: '
-             'a reader who counts only deductive results should read them as not decided by the contract technique (reasons in DESIGN.md §6).',
+    'notes': 'exit codes of ./check: 0 held, 1 VIOLATION, 2 undecided (tool limit / lost anchor / build failure; never an alarm). The level "exploration" entry (C14) is bounded-only: '
+             'a reader who counts only deductive results should read it as not decided by the contract technique (reasons in DESIGN.md §6).',
 }
 json.dump(m, open(os.path.join(V, 'MANIFEST.json'), 'w'), indent=1, ensure_ascii=False)
 print('MANIFEST.json written,', len(checks), 'checks')
